@@ -45,6 +45,8 @@ func runC13(p *eng.Prog, r *eng.Report, tier string) {
 		return strings.HasPrefix(f.Short, "stanza.") || strings.HasPrefix(f.Short, "stream.")
 	})
 	c.r.Floor("C13.17", "stores of the stanza and stream decoders", nLD, 5)
+	c.r.Floor("C13.18", "append calls examined in stanza, internal/attr, internal/marshal and the root package", sharedBackingNotAppended(c, "C13.18", []string{"stanza", "", "internal/attr", "internal/marshal", "internal/stream", "stream"}), 20)
+	c14OwnAttrs(c, "C13.19")
 	rawTokensResolveXMLPrefix(c, "C13.15")
 	nSel := childSelectedByNamespace(c, "C13.16", func(f *eng.Fn) bool {
 		return strings.HasPrefix(f.Short, "stanza.") || strings.HasPrefix(f.Short, "stream.")
